@@ -13,7 +13,7 @@ from checks.common import Layout, printable, blank_or_tab, not_char
 PROPERTY = "C04"
 FUNCTIONS = ["lasio/reader.py::read_header_line", "lasio/reader.py::configure_metadata_patterns"]
 SECTIONS = ["Version", "Well", "Curves", "Parameter", "~Xyz", None]
-FAMILIES = ["F1", "F2", "F3", "F4", "F4c", "F5", "F6"]
+FAMILIES = ["F1", "F2", "F3", "F4", "F4c", "F5", "F6", "F7"]
 BOUNDS = {
     "quick": {"field_cap": 2, "pad_cap": 2, "families": FAMILIES, "sections": ["Well", "Curves", "Parameter", None], "task_budget_s": 600,
               "alphabet": "printable Latin-1 (32-126, 160-254 except 0xB5 0xDF), blanks/tabs as padding"},
@@ -23,7 +23,7 @@ BOUNDS = {
 ASSUMPTIONS = [
     "lines longer than the stated capacities are outside the claim",
     "characters outside Latin-1 (and 0xB5, 0xDF, 0xFF) are outside the claim",
-    "F1 unit class: no whitespace, no '.'/':' (those are family F5), not all digits (F3), not bracketed",
+    "F1 unit class: no whitespace, no '.'/':' (those are family F5), not all digits (F3: digits + one blank + suffix; F7: all digits followed by >= 2 blanks), not bracketed",
     "value/unit padding p2 is non-empty whenever the value is non-empty",
     "regex semantics: own bounded encoding of CPython re, validated exhaustively on short strings each run",
 ]
@@ -96,6 +96,9 @@ def build(fam, sec, fcap, pcap):
     useg = [fld("u", ucap, 3 if fam == "F5" else 0, u_cls)]
     if fam == "F3":
         useg = [fld("num", 3, 1, isdigit), {"name": "ublank", "lit": " "}, fld("u", fcap, 1, u_cls)]
+    if fam == "F7":
+        # an all-digit unit keeps to itself when at least two blanks/tabs follow it
+        useg = [fld("u", 3, 1, isdigit)]
     if fam in ("F4", "F4c"):
         dg = lambda nm, lo, hi: {"name": nm, "lo": 1, "hi": 1, "cls": lambda c: z.in_range_c(c, lo, hi)}
         vseg = [fld("date", 3, 0, lambda c: z.And(nows(c), not_char(":")(c))), {"name": "dsep", "lit": " ", "optional": True},
@@ -118,7 +121,10 @@ def build(fam, sec, fcap, pcap):
     if fam == "F6":
         A(lay.any_char("m", lambda c: z.eq_c(c, 32)))
     # unit: never all digits (family F3 covers digits + blank), never bracketed, F5: interior dot/colon only
-    A(z.Or(z.Not(lay.nonempty("u")), lay.any_char("u", lambda c: z.Not(isdigit(c)))))
+    if fam != "F7":
+        A(z.Or(z.Not(lay.nonempty("u")), lay.any_char("u", lambda c: z.Not(isdigit(c)))))
+    else:
+        A(z.ge(lay.seglen("p2"), 2))
     br = lambda o, c: z.And(lay.first_char_is("u", lambda x: z.eq_c(x, o)), lay.last_char_is("u", lambda x: z.eq_c(x, c)), z.ge(lay.seglen("u"), 2))
     A(z.Not(br(91, 93)))
     A(z.Not(br(40, 41)))
